@@ -11,21 +11,32 @@
 (***************************************************************************)
 EXTENDS Naturals, FiniteSets, TLC
 CONSTANTS MaxL, MaxT, Deviation, Bound
-Kinds == {"use", "usemixed", "extends", "submodule", "pointer", "associate", "binding", "include"}
+\* "procptr": procedure pointers initialised with each other;  "procptriface": procedure pointers whose
+\* interface is the next pointer;  "mixedptr": data and procedure pointers alternate on the chain;
+\* "ppinclude": preprocessor #include (headers), "include": the Fortran INCLUDE line.
+Kinds == {"use", "usemixed", "extends", "submodule", "pointer", "associate", "binding", "include",
+          "procptr", "procptriface", "mixedptr", "ppinclude"}
+\* `entry`: something outside the structure refers to node 1 (a main program that USEs / INCLUDEs it);
+\* without it the cyclic files are alone in the workspace.  `fan`: how many times a node names its
+\* successor (two #include lines): a walker that only relies on a depth limit then does fan^depth work.
+FanKinds == {"include", "ppinclude"}
+EntryKinds == {"include", "ppinclude", "use", "usemixed"}
 
-VARIABLES kind, L, T, at, visited, steps, stopped
-vars == <<kind, L, T, at, visited, steps, stopped>>
+VARIABLES kind, L, T, entry, fan, at, visited, steps, stopped
+vars == <<kind, L, T, entry, fan, at, visited, steps, stopped>>
 N == T + L
 NextNode(i) == IF i < N THEN i + 1 ELSE T + 1
 
 Init == /\ kind \in Kinds /\ L \in 1..MaxL /\ T \in 0..MaxT
+        /\ entry \in (IF kind \in EntryKinds THEN BOOLEAN ELSE {TRUE})
+        /\ fan \in (IF kind \in FanKinds THEN 1..2 ELSE {1})
         /\ at = 1 /\ visited = {1} /\ steps = 0 /\ stopped = FALSE
 Step == /\ ~stopped /\ steps < Bound
         /\ LET n == NextNode(at) IN
            IF Deviation # "noVisitedSet" /\ n \in visited
            THEN stopped' = TRUE /\ UNCHANGED <<at, visited, steps>>
            ELSE at' = n /\ visited' = visited \cup {n} /\ steps' = steps + 1 /\ stopped' = stopped
-        /\ UNCHANGED <<kind, L, T>>
+        /\ UNCHANGED <<kind, L, T, entry, fan>>
 Next == Step
 Spec == Init /\ [][Next]_vars
 WalkIsBounded == steps <= N
